@@ -206,6 +206,10 @@ static void part_a(report& r)
         using E = vf::script_engine;
         int const world = 3;
         vf::mpi_env env(world);
+        // half of the configurations run on a sub-communicator whose rank 0 is not rank 0 of MPI_COMM_WORLD: "rank 0" is
+        // the first rank of the communicator the integrator was given
+        env.subgroup = integrand == 3;
+        MPI_Comm const comm = env.subgroup ? env.comm() : MPI_COMM_WORLD;
         std::vector<std::string> texts(world);
         vf::script_engine::table().clear();
         vf::script_engine::salt() = 2000;
@@ -216,18 +220,18 @@ static void part_a(report& r)
             if (kind == 0)
             {
                 using C = hep::plain_chkpt_with_rng<E, T>;
-                texts[rank] = text_of(hep::mpi_plain(MPI_COMM_WORLD, hep::make_integrand<T>(pf<T>(), 1), calls, hep::make_plain_chkpt<T, E>(E()), rec_mpi_cb<C>{hep::mpi_callback<C>(g_modes[m], file, target), &seen}));
+                texts[rank] = text_of(hep::mpi_plain(comm, hep::make_integrand<T>(pf<T>(), 1), calls, hep::make_plain_chkpt<T, E>(E()), rec_mpi_cb<C>{hep::mpi_callback<C>(g_modes[m], file, target), &seen}));
             }
             else if (kind == 1)
             {
                 using C = hep::vegas_chkpt_with_rng<E, T>;
-                texts[rank] = text_of(hep::mpi_vegas(MPI_COMM_WORLD, hep::make_integrand<T>(pf<T>(), 1), calls, hep::make_vegas_chkpt<T, E>(4, T(0.5), E()), rec_mpi_cb<C>{hep::mpi_callback<C>(g_modes[m], file, target), &seen}));
+                texts[rank] = text_of(hep::mpi_vegas(comm, hep::make_integrand<T>(pf<T>(), 1), calls, hep::make_vegas_chkpt<T, E>(4, T(0.5), E()), rec_mpi_cb<C>{hep::mpi_callback<C>(g_modes[m], file, target), &seen}));
             }
             else
             {
                 using C = hep::multi_channel_chkpt_with_rng<E, T>;
                 vf::pl_map<T> map; map.split = {T(0.25), T(0.5), T(0.75)};
-                texts[rank] = text_of(hep::mpi_multi_channel(MPI_COMM_WORLD, hep::make_multi_channel_integrand<T>(mf<T>(), 1, map, 1, 3), calls,
+                texts[rank] = text_of(hep::mpi_multi_channel(comm, hep::make_multi_channel_integrand<T>(mf<T>(), 1, map, 1, 3), calls,
                     hep::make_multi_channel_chkpt<T, E>(weight_pattern<T>(3, 3), T(0.01L), T(0.375), E()), rec_mpi_cb<C>{hep::mpi_callback<C>(g_modes[m], file, target), &seen}));
             }
         });
